@@ -4,7 +4,6 @@ package ports
 
 // Contracts for govc (see /verif/DESIGN.md). Comment-only file: contributes no code.
 
-//@ ghost field gauge int
 
 // connSnap is the ghost name of the one connection snapshot a selector takes per Select call.
 //@ ghost var connSnap map[string]int64
@@ -17,3 +16,17 @@ package ports
 //@ interface StatsCollector.RecordConnection
 //@   modifies ghost(endpoint).gauge
 //@   ensures ghost(endpoint).gauge == old(ghost(endpoint).gauge) + delta
+
+//@ interface DiscoveryService.GetHealthyEndpoints
+//@   ensures err == nil ==> forall k int :: 0 <= k && k < len(res) ==> res[k] != nil && fresh(res[k]) && res[k].Status == "healthy"
+
+//@ interface DiscoveryService.UpdateEndpointStatus
+//@   requires endpoint != nil
+//@   records updCount = old(updCount) + 1
+//@   records updStatus = endpoint.Status
+//@   records updLastChecked = endpoint.LastChecked
+//@   records updNext = endpoint.NextCheckTime
+//@   records updFailures = endpoint.ConsecutiveFailures
+//@   records updMult = endpoint.BackoffMultiplier
+//@   records updURL = endpoint.URLString
+//@   records updErr = err
